@@ -153,7 +153,7 @@ def esl_gev_pdf (x mu lambda alpha : α) : α :=
     if (ya1 ≤ 0.0) then
       0.0
     else
-      let lya1 := (Num.log ya1)
+      let lya1 := (Num.log1p (alpha * y))
       (lambda * (Num.exp (((-(1.0 + (1.0 / alpha))) * lya1) - (Num.exp ((-lya1) / alpha)))))
 
 /-- `esl_gev_logpdf` (esl_gev.c:89) -/
@@ -166,7 +166,7 @@ def esl_gev_logpdf (x mu lambda alpha : α) : α :=
     if (ya1 ≤ 0.0) then
       (-Num.inf)
     else
-      let lya1 := (Num.log ya1)
+      let lya1 := (Num.log1p (alpha * y))
       (((Num.log lambda) - ((1.0 + (1.0 / alpha)) * lya1)) - (Num.exp ((-lya1) / alpha)))
 
 /-- `esl_gev_cdf` (esl_gev.c:117) -/
@@ -182,7 +182,7 @@ def esl_gev_cdf (x mu lambda alpha : α) : α :=
       else
         1.0
     else
-      let lya1 := (Num.log ya1)
+      let lya1 := (Num.log1p (alpha * y))
       (Num.exp (-(Num.exp ((-lya1) / alpha))))
 
 /-- `esl_gev_logcdf` (esl_gev.c:144) -/
@@ -198,7 +198,7 @@ def esl_gev_logcdf (x mu lambda alpha : α) : α :=
       else
         0.0
     else
-      let lya1 := (Num.log ya1)
+      let lya1 := (Num.log1p (alpha * y))
       (-(Num.exp ((-lya1) / alpha)))
 
 /-- `esl_gev_surv` (esl_gev.c:170) -/
@@ -214,7 +214,7 @@ def esl_gev_surv (x mu lambda alpha : α) : α :=
       else
         0.0
     else
-      let lya1 := ((Num.log ya1) / alpha)
+      let lya1 := ((Num.log1p (alpha * y)) / alpha)
       (if (((-0.5) * (Num.log (2.2204460492503131e-16))) < lya1) then (Num.exp (-lya1)) else (1.0 - (Num.exp (-(Num.exp (-lya1))))))
 
 /-- `esl_gev_logsurv` (esl_gev.c:198) -/
@@ -236,7 +236,7 @@ def esl_gev_logsurv (x mu lambda alpha : α) : α :=
       else
         (-Num.inf)
     else
-      let lya1 := ((Num.log ya1) / alpha)
+      let lya1 := ((Num.log1p (alpha * y)) / alpha)
       if (((-0.5) * (Num.log (2.2204460492503131e-16))) < lya1) then
         (-lya1)
       else
@@ -250,7 +250,7 @@ def esl_gev_invcdf (p mu lambda alpha : α) : α :=
   if ((Num.fabs alpha) < 1.0e-12) then
     (mu - ((Num.log ((-1.0) * (Num.log p))) / lambda))
   else
-    (mu + (((Num.exp ((-alpha) * (Num.log (-(Num.log p))))) - 1.0) / (alpha * lambda)))
+    (mu + ((Num.expm1 ((-alpha) * (Num.log (-(Num.log p))))) / (alpha * lambda)))
 
 /-- `esl_gev_Sample` (esl_gev.c:336) -/
 def esl_gev_Sample (u mu lambda alpha : α) : α :=
@@ -425,21 +425,49 @@ def esl_gam_pdf (x mu lambda tau : α) : α :=
   if (y < 0.0) then
     0.0
   else
-    let gamtau := Num.logGamma tau
-    let val := ((((tau * (Num.log lambda)) + ((tau - 1.0) * (Num.log (x - mu)))) - gamtau) - y)
-    (Num.exp val)
+    if (Num.eqb x mu = true) then
+      if (tau < 1.0) then
+        Num.inf
+      else
+        if (1.0 < tau) then
+          0.0
+        else
+          if (Num.eqb tau (1.0) = true) then
+            lambda
+          else
+            let gamtau := Num.logGamma tau
+            let val := ((((tau * (Num.log lambda)) + ((tau - 1.0) * (Num.log (x - mu)))) - gamtau) - y)
+            (Num.exp val)
+    else
+      let gamtau := Num.logGamma tau
+      let val := ((((tau * (Num.log lambda)) + ((tau - 1.0) * (Num.log (x - mu)))) - gamtau) - y)
+      (Num.exp val)
 
-/-- `esl_gam_logpdf` (esl_gamma.c:70) -/
+/-- `esl_gam_logpdf` (esl_gamma.c:76) -/
 def esl_gam_logpdf (x mu lambda tau : α) : α :=
   let y := (lambda * (x - mu))
-  if (x < 0.0) then
+  if (y < 0.0) then
     (-Num.inf)
   else
-    let gamtau := Num.logGamma tau
-    let val := ((((tau * (Num.log lambda)) + ((tau - 1.0) * (Num.log (x - mu)))) - gamtau) - y)
-    val
+    if (Num.eqb x mu = true) then
+      if (tau < 1.0) then
+        Num.inf
+      else
+        if (1.0 < tau) then
+          (-Num.inf)
+        else
+          if (Num.eqb tau (1.0) = true) then
+            (Num.log lambda)
+          else
+            let gamtau := Num.logGamma tau
+            let val := ((((tau * (Num.log lambda)) + ((tau - 1.0) * (Num.log (x - mu)))) - gamtau) - y)
+            val
+    else
+      let gamtau := Num.logGamma tau
+      let val := ((((tau * (Num.log lambda)) + ((tau - 1.0) * (Num.log (x - mu)))) - gamtau) - y)
+      val
 
-/-- `esl_gam_cdf` (esl_gamma.c:94) -/
+/-- `esl_gam_cdf` (esl_gamma.c:106) -/
 def esl_gam_cdf (x mu lambda tau : α) : α :=
   let y := (lambda * (x - mu))
   if (y ≤ 0.0) then
@@ -448,7 +476,7 @@ def esl_gam_cdf (x mu lambda tau : α) : α :=
     let val := Num.incGammaP tau y
     val
 
-/-- `esl_gam_logcdf` (esl_gamma.c:113) -/
+/-- `esl_gam_logcdf` (esl_gamma.c:125) -/
 def esl_gam_logcdf (x mu lambda tau : α) : α :=
   let y := (lambda * (x - mu))
   if (y ≤ 0.0) then
@@ -457,7 +485,7 @@ def esl_gam_logcdf (x mu lambda tau : α) : α :=
     let val := Num.incGammaP tau y
     (Num.log val)
 
-/-- `esl_gam_surv` (esl_gamma.c:131) -/
+/-- `esl_gam_surv` (esl_gamma.c:143) -/
 def esl_gam_surv (x mu lambda tau : α) : α :=
   let y := (lambda * (x - mu))
   if (y ≤ 0.0) then
@@ -466,7 +494,7 @@ def esl_gam_surv (x mu lambda tau : α) : α :=
     let val := Num.incGammaQ tau y
     val
 
-/-- `esl_gam_logsurv` (esl_gamma.c:154) -/
+/-- `esl_gam_logsurv` (esl_gamma.c:166) -/
 def esl_gam_logsurv (x mu lambda tau : α) : α :=
   let y := (lambda * (x - mu))
   if (y ≤ 0.0) then
